@@ -15,7 +15,12 @@ PPool == << [p |-> <<IdxStep(NumV(0)), AttrStep("a")>>, rep |-> 0],
             [p |-> <<IdxStep(NumV(0))>>, rep |-> 0],
             [p |-> <<IdxStep(NumV(0)), AttrStep("b")>>, rep |-> 0],
             [p |-> <<IdxStep(NumV(4)), IdxStep(NumV(0))>>, rep |-> 0],
-            [p |-> <<IdxStep(NumV(0)), IdxStep(NumV(4))>>, rep |-> 1] >>
+            [p |-> <<IdxStep(NumV(0)), IdxStep(NumV(4))>>, rep |-> 1],
+            \* siblings under one index step: with the two above, six different paths in ONE hash bucket
+            [p |-> <<IdxStep(NumV(4))>>, rep |-> 0],
+            [p |-> <<IdxStep(NumV(8))>>, rep |-> 0],
+            [p |-> <<IdxStep(NumV(12))>>, rep |-> 0],
+            [p |-> <<IdxStep(StrV(<<"b">>))>>, rep |-> 0] >>
 PP == Len(PPool)
 Prefixes1(p) == {SubSeq(p, 1, i) : i \in 1..Len(p)}
 VARIABLES psets, phist
